@@ -3,7 +3,7 @@
     bit saying whether its text contains a host path (OS errors do until stripPath /
     errFromOS has been applied, as in fs_local.go); ServeError copies the text to the
     response body. *)
-From GW Require Import Base GoPath Fs DavServer Rfc4918 FsProofs DavRefine DavCorollaries.
+From GW Require Import Base GoPath Fs DavServer Rfc4918 FsProofs DavRefine DavCorollaries RelocProofs.
 Local Open Scope list_scope.
 
 Theorem C17_no_leak : forall root sb r, r_leak (snd (serve root sb r)) = false.
@@ -16,3 +16,29 @@ Theorem C17_hrefs_relative : forall name segs,
   local_segs name = Ok segs -> Forall (fun x => proper_seg x = true) segs.
 Proof. exact local_segs_proper. Qed.
 Print Assumptions C17_hrefs_relative.
+
+(** Non-disclosure as non-interference: the same served subtree, served from two
+    different directories of two different hosts' trees, gives the *same response* —
+    every projected observable: status, headers, body, multi-status entries — and the
+    same subtree afterwards.  The location of the served directory and everything
+    around it therefore cannot flow into any response.  (Premise: the served directory
+    exists; a missing one is reported by the 404/409 of C01 without its name.) *)
+Theorem C17_response_independent_of_root : forall root1 root2 sb1 sb2 n0 r,
+  geto sb1 root1 = Some n0 -> geto sb2 root2 = Some n0 ->
+  snd (serve root1 sb1 r) = snd (serve root2 sb2 r) /\
+  geto (fst (serve root1 sb1 r)) root1 = geto (fst (serve root2 sb2 r)) root2.
+Proof. exact serve_two_roots. Qed.
+Print Assumptions C17_response_independent_of_root.
+
+(** ... along every history, for as long as the served directory exists. *)
+Theorem C17_history_independent_of_root : forall root1 root2 rs sb1 sb2,
+  geto sb1 root1 = geto sb2 root2 -> exists_ (geto sb1 root1) = true ->
+  agree_while_served root1 root2 sb1 sb2 rs.
+Proof. exact history_two_roots. Qed.
+Print Assumptions C17_history_independent_of_root.
+
+(** Every response of a history is free of host paths. *)
+Theorem C17_history_no_leak : forall root rs sb,
+  Forall (fun resp => r_leak resp = false) (snd (run root sb rs)).
+Proof. exact history_no_leak. Qed.
+Print Assumptions C17_history_no_leak.
